@@ -25,6 +25,7 @@ const (
 	mkStr
 	mkArr
 	mkMap
+	mkBig // an integer literal with more significant digits than a 34-digit context keeps; only bound, read and compared
 )
 
 type MV struct {
@@ -53,6 +54,8 @@ func (v MV) String() string {
 		return strconv.FormatInt(v.N, 10)
 	case mkStr:
 		return strconv.Quote(v.S)
+	case mkBig:
+		return v.S
 	case mkArr:
 		var p []string
 		for _, e := range v.A {
@@ -102,6 +105,9 @@ func (v MV) toGo(flavour int) interface{} {
 		}
 	case mkStr:
 		return v.S
+	case mkBig:
+		d, _ := new(decimal.Big).SetString(v.S) // unlimited precision
+		return d
 	case mkArr:
 		out := make([]interface{}, len(v.A))
 		for i, e := range v.A {
@@ -141,6 +147,16 @@ func matches(v MV, got interface{}) bool {
 	case mkStr:
 		s, ok := got.(string)
 		return ok && s == v.S
+	case mkBig:
+		want, _ := new(decimal.Big).SetString(v.S)
+		switch x := got.(type) {
+		case *decimal.Big:
+			return x != nil && x.Cmp(want) == 0
+		case float64:
+			f, _ := want.Float64()
+			return x == f
+		}
+		return false
 	case mkArr:
 		a, ok := got.([]interface{})
 		if !ok || len(a) != len(v.A) {
@@ -224,6 +240,8 @@ func (n *MNode) text(cx int) string {
 			return strconv.FormatInt(n.V.N, 10)
 		case mkStr:
 			return "'" + n.V.S + "'"
+		case mkBig:
+			return n.V.S
 		}
 		return "null"
 	case nName:
@@ -302,7 +320,7 @@ func (n *MNode) text(cx int) string {
 
 // stubsUsed lists the host functions a formula calls.
 func (n *MNode) stubsUsed(into map[string]bool) {
-	if n.Op == nCall {
+	if n.Op == nCall && n.Name != "max" && n.Name != "abs" {
 		into[n.Name] = true
 	}
 	for _, k := range n.Kids {
@@ -501,7 +519,7 @@ func (e *mEnv) eval(n *MNode) (MV, error) {
 		if err != nil {
 			return mNull(), err
 		}
-		if a.K != b.K || (a.K != mkNum && a.K != mkStr && a.K != mkBool) {
+		if a.K != b.K || (a.K != mkNum && a.K != mkStr && a.K != mkBool && a.K != mkBig) {
 			return mNull(), errModelType
 		}
 		return mBool(a.equal(b)), nil
@@ -520,6 +538,33 @@ func (e *mEnv) eval(n *MNode) (MV, error) {
 	case nBadAssign:
 		return mNull(), errModelBadTarget
 	case nCall:
+		if n.Name == "max" || n.Name == "abs" {
+			// builtins of the library: always there, evaluate their arguments left to right
+			args := make([]MV, 0, len(n.Kids))
+			for _, k := range n.Kids {
+				v, err := e.eval(k)
+				if err != nil {
+					return mNull(), err
+				}
+				if v.K != mkNum {
+					return mNull(), errModelType
+				}
+				args = append(args, v)
+			}
+			if n.Name == "abs" {
+				if args[0].N < 0 {
+					return mNum(-args[0].N), nil
+				}
+				return args[0], nil
+			}
+			best := args[0]
+			for _, a := range args[1:] {
+				if a.N > best.N {
+					best = a
+				}
+			}
+			return best, nil
+		}
 		if !e.m.hasThis || !e.m.stubs[n.Name] {
 			return mNull(), errModelNotFunc
 		}
